@@ -12,6 +12,9 @@ const MAXC: usize = 3;
 #[repr(align(64))]
 struct SlotBuf([u8; SLOT_BYTES * MAXC]);
 
+/// Frames cut off the end of the managed range (0 = two whole trees); lets the argument check be
+/// exercised on ranges that are not a multiple of the block size.
+static mut FRAMES_CUT: usize = 0;
 /// A class id below NC that is left unconfigured (non-contiguous class ids); usize::MAX = none.
 static mut GAP_CLASS: usize = usize::MAX;
 /// Ghost set of offline trees.
@@ -150,7 +153,7 @@ fn with_alloc<const NC: usize, R>(c: &Cfg<NC>, f: impl FnOnce(&LLFree) -> R) -> 
         i += 1;
     }
     let classing = Classing::new(&classes[..n], c.default, kpolicy::policy);
-    let frames = L2T * TREE_FRAMES;
+    let frames = L2T * TREE_FRAMES - unsafe { FRAMES_CUT };
     let locals = Locals::new(&mut buf.0[..], &classing).unwrap();
     let mut i = 0;
     while i < NC {
@@ -212,8 +215,13 @@ fn c08_check_full_domain() {
     let class: u8 = kani::any();
     kani::assume(class < 8);
     let local: Option<usize> = if kani::any() { Some(kani::any()) } else { None };
-    let frames = L2T * TREE_FRAMES;
+    // any managed frame count with two trees, in particular counts that are not a multiple of the block size
+    let cut: usize = kani::any();
+    kani::assume(cut < TREE_FRAMES);
+    unsafe { FRAMES_CUT = cut };
+    let frames = L2T * TREE_FRAMES - cut;
     let (r, _, _, _) = with_alloc(&c, |a| a.check(FrameId(frame), &Request::new(order, Class(class), local)));
+    unsafe { FRAMES_CUT = 0 };
     vcover!(r.is_ok(), "valid request");
     vcover!(r.is_err(), "invalid request");
     let invalid = order > TREE_ORDER
